@@ -797,6 +797,47 @@ func c12Copy(p *Program, r *Report, m *envModel, fns []*ssa.Function) {
 		}
 	}
 	r.Floor("C12.R5", nParent, 3)
+	// a child constructor (new scope whose parent is the receiver) gives the child nothing else: own tables are created on
+	// first use and an external lookup is set on the scope it was set on only
+	for _, fn := range fns {
+		if len(fn.Params) == 0 || !m.isEnvPtr(fn.Params[0].Type()) {
+			continue
+		}
+		children := map[ssa.Value]bool{}
+		for _, b := range fn.Blocks {
+			for _, in := range b.Instrs {
+				if st, ok := in.(*ssa.Store); ok {
+					if fa, ok := st.Addr.(*ssa.FieldAddr); ok && fa.Field == m.parentI && isFresh(fa.X) && st.Val == ssa.Value(fn.Params[0]) {
+						children[fa.X] = true
+					}
+				}
+			}
+		}
+		for c := range children {
+			bad := ""
+			for _, b := range fn.Blocks {
+				for _, in := range b.Instrs {
+					st, ok := in.(*ssa.Store)
+					if !ok {
+						continue
+					}
+					fa, ok := st.Addr.(*ssa.FieldAddr)
+					if !ok || fa.X != c || fa.Field == m.parentI {
+						continue
+					}
+					if _, isMake := st.Val.(*ssa.MakeMap); isMake {
+						continue
+					}
+					if k, ok := st.Val.(*ssa.Const); ok && k.IsNil() {
+						continue
+					}
+					bad = "field #" + fmt.Sprint(fa.Field) + " of the new scope is set at " + p.Pos(instrPos(st))
+				}
+			}
+			r.Check(bad == "", "C12.R5", funcName(fn)+"|child starts empty", p.Pos(c.Pos()), "a new child scope gets its parent link and nothing else",
+				bad+": the child starts with state taken from another scope (an inherited external lookup is asked before the parent's own table and stays after the parent's is replaced)")
+		}
+	}
 	// Copy: the maps of the result are filled by ranging over the receiver's maps with key/value copied unchanged
 	for _, fn := range fns {
 		if len(fn.Params) != 1 || !m.isEnvPtr(fn.Params[0].Type()) {
